@@ -39,7 +39,12 @@ JoinDots(s) == IF Len(s) = 1 THEN s[1] ELSE s[1] \o "." \o JoinDots(Tail(s))
 
 Base(sh) ==
   IF sh.p = "" THEN "ref:" \o (IF sh.ref[1] = "" THEN "" ELSE sh.ref[1] \o "/") \o JoinDots(Tail(sh.ref))
-  ELSE CASE sh.p = "int32"   -> "int{bits=32}"
+  ELSE CASE sh.p \in {"int", "int32", "int64"} /\ sh.size # <<>> ->
+              \* a sized integer: one constraint holding the bit width (if any) and the length
+              "int{" \o (IF sh.p = "int32" THEN "bits=32," ELSE IF sh.p = "int64" THEN "bits=64," ELSE "")
+              \o "len=" \o (IF Len(sh.size) = 1 THEN "0.." \o ToString(sh.size[1])
+                             ELSE ToString(sh.size[1]) \o ".." \o ToString(sh.size[2])) \o "}"
+         [] sh.p = "int32"   -> "int{bits=32}"
          [] sh.p = "int64"   -> "int{bits=64}"
          [] sh.p = "float32" -> "float{bits=32}"
          [] sh.p = "float64" -> "float{bits=64}"
